@@ -1,10 +1,13 @@
-"""C04 leg E: TLC over ALL small line tables (spec/LineTableSmall.tla) + leg S: the witness tables as real ELF objects.
+"""C04 leg E: TLC over ALL small line tables (spec/LineTableSmall.tla) + leg S: witness tables as real ELF objects.
 
-quick:    LineTableSmall_Q.cfg exhaustively with invariant ClassesAllowed (no disagreement class beyond the
-          candidate list below), then every committed witness table (spec/LineTableSmall.witnesses.json) is
-          synthesised (tools/c04_synth.py) and put through the same oracle + debugger pipeline as the puppets.
-thorough: additionally LineTableSmall_T*.cfg, vacuity runs, and the witnesses are re-derived with TLC (one run per
-          class with invariant No_<class>) and must still cover exactly the classes of the committed file.
+Since the fix commits a32cc53 / 28a0576 / 074d460 part 2 of LineTable.tla transcribes the FIXED algorithms and the
+invariant is plain AlgorithmAgreesWithSpec (no disagreement class at all).
+quick:    LineTableSmall_Q.cfg (one unit) and LineTableSmall_M.cfg (two compilation units sharing the file).
+thorough: + LineTableSmall_T.cfg, LineTableSmall_MT.cfg, vacuity runs (shared address, no prologue_end, a line split
+          over two units) and the seeded swapped loop nest (PerUnitFallback = TRUE) which TLC must reject.
+Leg S:    spec/LineTableSmall.witnesses.json holds TLC's counterexample tables of the PRE-fix transcriptions (commit
+          8aa1749); they stay as a regression corpus and are synthesised (tools/c04_synth.py) into one real object
+          that goes through the same oracle + debugger pipeline as the puppets.
 """
 import json
 import re
@@ -12,25 +15,19 @@ from pathlib import Path
 
 import vlib
 
-# disagreement classes between the algorithm transcriptions and the declarative spec that TLC finds on small
-# tables (design/C04.md explains each).  They are CANDIDATE defects; only leg S / leg O turn one into a finding.
-CANDIDATES = [
-    "place_end_sequence_row", "place_wrong_row", "info_place_zero_length_row",
-    "fn_break_outside_function_no_pe", "fn_break_outside_function_despite_pe", "fn_break_not_first_prologue_end",
-    "line_end_sequence_row", "line_wrong_address", "line_function_missed",
-]
-NOT_EXPECTED = ["place_missing", "func_wrong", "fn_break_none"]
 WITNESSES = vlib.SPEC / "LineTableSmall.witnesses.json"
 CFGDIR = vlib.WORK / "c04" / "cfg"
 
 
-def _cfg(base, invariant, allowed=None, name=None):
+def _cfg(base, invariant, override=None, name=None):
     CFGDIR.mkdir(parents=True, exist_ok=True)
     txt = (vlib.SPEC / base).read_text()
-    if allowed is not None:
-        txt = re.sub(r"Allowed = \{[^}]*\}", "Allowed = {" + ", ".join('"%s"' % c for c in allowed) + "}", txt)
+    for k, v in (override or {}).items():
+        txt, n = re.subn(rf"(?m)^  {k} = .*$", f"  {k} = {v}", txt)
+        if n != 1:
+            raise vlib.ToolError(f"{base}: constant {k} not found")
     txt += f"\nINVARIANT {invariant}\n"
-    out = CFGDIR / (name or f"{Path(base).stem}-{invariant}.cfg")
+    out = CFGDIR / (name or f"{Path(base).stem}-{invariant}{'-' + '-'.join(override) if override else ''}.cfg")
     out.write_text(txt)
     return str(out)
 
@@ -43,78 +40,46 @@ def _witness(r):
 
 
 def exhaustive(base, workers, timeout):
-    r = vlib.tlc("LineTableSmall", _cfg(base, "ClassesAllowed", CANDIDATES), workers=workers, timeout=timeout,
+    r = vlib.tlc("LineTableSmall", _cfg(base, "AlgorithmAgreesWithSpec"), workers=workers, timeout=timeout,
                  heap="3g", name=f"{Path(base).stem}-all")
     vlib.tlc_expect_ok(r, f"LineTableSmall {base}")
     if r.violated:
         w = _witness(r)
-        raise vlib.ToolError(f"LineTableSmall/{base}: a disagreement class outside the candidate list appeared "
-                             f"(the specification changed, not the code): {w and w.get('classes')}\n{json.dumps(w)}")
+        # the model does not read /repo: a disagreement here means spec and transcription drifted apart
+        raise vlib.ToolError(f"LineTableSmall/{base}: the transcribed algorithms disagree with the declarative "
+                             f"specification: {w and w.get('classes')}\n{json.dumps(w)}")
     if r.distinct < 100:
         raise vlib.ToolError(f"LineTableSmall/{base}: vacuous ({r.distinct} states)")
     return r
 
 
-def derive_witness(base, cls, workers, timeout=600):
-    r = vlib.tlc("LineTableSmall", _cfg(base, "No_" + cls), workers=workers, timeout=timeout, heap="3g",
-                 name=f"{Path(base).stem}-{cls}")
-    vlib.tlc_expect_ok(r, f"LineTableSmall witness {cls}")
-    if not r.violated:
-        return None
-    w = _witness(r)
-    if w is None or cls not in w["classes"]:
-        raise vlib.ToolError(f"could not read TLC's witness for {cls}:\n{r.out[-1500:]}")
-    return w
-
-
-def must_violate(base, inv, workers):
-    r = vlib.tlc("LineTableSmall", _cfg(base, inv), workers=workers, timeout=600, heap="3g",
+def must_violate(base, inv, workers, override=None):
+    r = vlib.tlc("LineTableSmall", _cfg(base, inv, override), workers=workers, timeout=600, heap="3g",
                  name=f"{Path(base).stem}-{inv}")
-    vlib.tlc_expect_ok(r, f"LineTableSmall vacuity {inv}")
+    vlib.tlc_expect_ok(r, f"LineTableSmall {inv}")
     if not r.violated:
-        raise vlib.ToolError(f"LineTableSmall/{base}: vacuous - no table with the shape {inv} excludes")
-
-
-def regen(workers=2, bases=("LineTableSmall_Q.cfg", "LineTableSmall_U.cfg")):
-    """Re-derive one witness per (class, base) and write the committed witness file."""
-    out = []
-    for base in bases:
-        for cls in CANDIDATES + NOT_EXPECTED:
-            w = derive_witness(base, cls, workers)
-            if w is not None:
-                out.append({"class": cls, "cfg": base, "table": {"rows": w["rows"], "funcs": w["funcs"]},
-                            "classes": sorted(w["classes"])})
-                vlib.log(f"[C04/E] witness {base} {cls}: {len(w['rows'])} rows")
-    WITNESSES.write_text(json.dumps(out, indent=1) + "\n")
-    return out
+        raise vlib.ToolError(f"LineTableSmall/{base}: expected a violation of {inv} {override or ''} (vacuous / insensitive)")
+    return _witness(r)
 
 
 def run_models(tier, workers=4):
-    """Leg E.  Returns {"states", "transitions", "summary"}.  Raises ToolError on a vacuous run, on a class
-    outside the candidate list, or (thorough) on a stale witness file."""
+    """Leg E.  Returns {"states", "transitions", "summary"}."""
     res = {"states": 0, "transitions": 0, "summary": {}}
-    bases = ["LineTableSmall_Q.cfg"] if tier == "quick" else \
-        ["LineTableSmall_Q.cfg", "LineTableSmall_U.cfg", "LineTableSmall_T.cfg"]
+    bases = ["LineTableSmall_Q.cfg", "LineTableSmall_M.cfg"]
+    if tier == "thorough":
+        bases += ["LineTableSmall_T.cfg", "LineTableSmall_MT.cfg"]
     for base in bases:
         r = exhaustive(base, workers, 1500)
         res["states"] += r.distinct
         res["transitions"] += r.generated
         res["summary"][base] = {"tables": r.distinct - 1, "wall_s": round(r.wall, 1)}
-        vlib.log(f"[C04/E] {base}: {r.distinct - 1} tables, no class outside the candidate list, {r.wall:.0f}s")
-    res["summary"]["classes_allowed"] = CANDIDATES
+        vlib.log(f"[C04/E] {base}: {r.distinct - 1} tables, AlgorithmAgreesWithSpec holds, {r.wall:.0f}s")
     if tier == "thorough":
-        committed = json.loads(WITNESSES.read_text())
         must_violate("LineTableSmall_Q.cfg", "Never_SharedAddress", workers)
         must_violate("LineTableSmall_Q.cfg", "Never_NoPe", workers)
-        # every committed witness must still be a TLC counterexample of its class (classes outside the
-        # candidate list cannot appear: ClassesAllowed above would have been violated)
-        for w in committed:
-            d = derive_witness(w["cfg"], w["class"], workers)
-            if d is None:
-                raise vlib.ToolError(f"LineTableSmall: committed witness for {w['class']}/{w['cfg']} is stale "
-                                     f"(run `python3-vt tools/c04_small.py regen`)")
-        have = committed
-        res["summary"]["witnesses_rederived"] = len(have)
+        must_violate("LineTableSmall_M.cfg", "Never_SplitLine", workers)
+        w = must_violate("LineTableSmall_M.cfg", "AlgorithmAgreesWithSpec", workers, {"PerUnitFallback": "TRUE"})
+        res["summary"]["swapped_loop_nest_rejected_by_tlc"] = w and w.get("classes")
     return res
 
 
@@ -125,9 +90,3 @@ def run_synth(rep, exe, totals):
     case, ntab, r = c04_synth.run_tables(rep, exe, committed, "gas", totals)
     return {"synth_objects": ntab, "states": r.distinct, "transitions": r.generated,
             "samples": [{"synth_tables": ntab, "class": committed[0]["class"], "first_table": committed[0]["table"]}]}
-
-
-if __name__ == "__main__":
-    import sys
-    if len(sys.argv) > 1 and sys.argv[1] == "regen":
-        print(len(regen()), "witnesses written to", WITNESSES)
